@@ -82,7 +82,7 @@ def run(rep, tier, rng):
         if rng.random() < 0.15:
             texts.append(("mutated-bundled", mutate(rng, rng.choice(sources))))
         else:
-            g = P.Gen(rng, ticks=False)
+            g = P.Gen(rng, ticks=False, loops=False)   # a mutated recursive procedure may simply never return
             texts.append(("mutated-program", mutate(rng, " ".join(g.toplevel(rng.randrange(1, 4))))))
     for _ in range(600 if tier == "quick" else 10000):
         s = "".join(rng.choice(["(", ")", " ", "a", "\u00e9", "\u4e2d", "\U0001F600", "\x00", "\x07", "\x7f", "\u200b", "\ufeff", "'", "\"", "#", "\\", "1", "\t", "\r"]) for _ in range(rng.randrange(1, 12)))
@@ -101,8 +101,18 @@ def run(rep, tier, rng):
     for ci, (cid, _, fields) in enumerate(cases):
         a, b = impl.get(cid, []), model.get(cid, [])
         forms = fields[1:]
+        if a and a[0].startswith("T timeout"):
+            rep.extra["chunks_not_finished"] = rep.extra.get("chunks_not_finished", 0) + 1
+            continue      # some text of this chunk does not terminate (e.g. an infinite tail loop): outside the claim
         if len(a) != len(forms):
-            rep.violation({"what": "the harness process lost results (crash/abort while evaluating)", "first_text": forms[0]}); continue
+            # the process died on this chunk: find the text
+            culprit = None
+            for k in range(0, len(forms), 2):
+                r1 = C.run_hx([("x", "prog", ["std", forms[k]])], timeout=60).get("x", ["?"])
+                if r1 and r1[0].startswith("P "):
+                    culprit = (forms[k], r1); break
+            rep.violation({"what": "the interpreter process died (abort / stack overflow / out of memory) while evaluating a text",
+                           "text": culprit[0] if culprit else forms[0], "result": culprit[1] if culprit else a}); continue
         for k in range(0, len(forms), 2):
             kind, text = texts[ci * CH + k // 2]
             rep.count()
